@@ -19,7 +19,7 @@ ID = "C07"
 RULE = ("Stochastic model programs with pub/sub fan-out: C02-style handlers + random delays and observations drawn "
         "from shared seeded streams + handlers that fire one of 4 bus event types to <=5 listeners subscribed in a "
         "generated order (seeds installed directly or through a StreamSeedUpdater with a seed table and a user-defined "
-        "order-sensitive fallback updater), whose notify scripts draw from the shared streams, schedule events, make observations and "
+        "order-sensitive fallback updater, or the library's default fallback after earlier update_seeds calls for other replications), whose notify scripts draw from the shared streams, schedule events, make observations and "
         "subscribe/unsubscribe listeners (handlers do so too). "
         "(i) in-process (Hypothesis): each program is run plain, with a stop()/start() pause after event k, with a "
         "bounded run, after unrelated prior activity, and as the second replication on the same simulator, model and "
@@ -104,7 +104,9 @@ def case_strategy(tier):
             names = draw(st.lists(st.sampled_from(["default", "arrivals", "service", "routing", "x", "Y", "stream-\u00e9",
                                                    "a" * 40, "", "0", "failures", "repair"]),
                                   min_size=3, max_size=6, unique=True))
-            upd = {"names": names, "r": draw(st.integers(0, 4)), "master": draw(st.integers(0, 1000))}
+            upd = {"names": names, "r": draw(st.integers(0, 4)), "master": draw(st.integers(0, 1000)),
+                   "fallback": draw(st.sampled_from(["master", "default"])),
+                   "history": draw(st.lists(st.integers(0, 4), min_size=1, max_size=3))}
             while len(seeds) < 3:
                 seeds.append(draw(st.integers(0, 50)))
         return {"prog": prog, "bus": {"listeners": listeners, "order": order}, "seeds": seeds, "updater": upd,
@@ -196,8 +198,14 @@ def run_case(case):
     variants.append(("after-prior-activity", ["plain"]))
     variants.append(("second-replication-same-objects", ["plain", "twice"]))
     variants.append(("other-simulator-during-pause", ["pause-other", case["k"]]))
+    if (case.get("updater") or {}).get("fallback") == "default":
+        out.label("default-fallback-updater")
+        variants.append(("after-earlier-seed-updates", ["plain", "history"]))
     for name, drive in variants:
-        d = common.run_program(case, drive[:1] + drive[2:] if drive[-1] == "twice" else drive, twice=drive[-1] == "twice")
+        c_ = case
+        if drive[-1] == "history":
+            c_, drive = dict(case, apply_history=True), drive[:1]
+        d = common.run_program(c_, drive[:1] + drive[2:] if drive[-1] == "twice" else drive, twice=drive[-1] == "twice")
         if d != plain:
             out.fail("digest-differs-" + name, _first_diff(plain, d))
             break
